@@ -608,12 +608,19 @@ Definition make_links (c : call) : result links :=
            build_links (c_jobs c) []      (* cfcb328: no "./job" fallback for an empty selection *)
        end.
 
+(* "linked view targets are resolved from the physical location of the link": _update_view receives
+   os.path.realpath(prefix) and os.path.realpath of every job path (the returned mapping keeps the paths as spelled).
+   Both are absolute; as raw paths they start with the empty component. *)
+Definition physical (w : node) (cwd cs : path) : path := ([] : str) :: realpath w cwd cs.
+Definition physical_links (w : node) (lk : links) : links :=
+  map (fun e => (fst e, realpath w [] (([] : str) :: snd e))) lk.
+
 Definition create_linked_view (hint : list path) (s : st) (c : call) : result links * st :=
   match make_links c with
   | Err e => (Err e, s)
   | Ok lk =>
       if negb (check_structure (keys_of lk)) then (Err ERuntimeError, s)
-      else match update_view hint s (c_cwd c) (c_prefix c) lk with
+      else match update_view hint s (c_cwd c) (physical (fst s) (c_cwd c) (c_prefix c)) (physical_links (fst s) lk) with
            | (s', None) => (Ok lk, s')
            | (s', Some _) => (Err EOSError, s')
            end
